@@ -281,8 +281,8 @@ Proof.
         split; [exact Hp | exact Hall].
     + (* mismatch: nothing below is touched *)
       simpl. intros e0 Hin. unfold keepP. rewrite rstr_app, (rstr_key k Hk). right. destruct wild.
-      * simpl in Ew. destruct (prefixb route (nkey k ++ rstr (fst e0))) eqn:E; [|reflexivity].
-        destruct (prefix_comparable _ _ _ E); congruence.
+      * cbn [andb] in Ew. destruct (prefixb route (nkey k ++ rstr (fst e0))) eqn:E; [|reflexivity].
+        destruct (prefix_comparable _ _ _ E) as [E2|E2]; rewrite E2 in *; discriminate.
       * intros E. rewrite <- E in Ep. now rewrite prefixb_app in Ep.
 Qed.
 
@@ -319,3 +319,423 @@ Qed.
 
 Lemma own_kept wild ho c0 r : keepP wild ho (c0 :: r) [].
 Proof. right. destruct wild; [reflexivity | discriminate]. Qed.
+
+(* ---- a node after its children have been processed ---- *)
+Definition kept (wild ho : bool) (route : str) (es' es : list entry) : Prop :=
+  forall e, In e es' <-> In e es /\ keepP wild ho route (fst e).
+
+Lemma kids_entries_split pre k post :
+  forall e, In e (kids_entries (pre ++ k :: post)) <->
+            In e (kids_entries pre) \/ In e (kid_entries k) \/ In e (kids_entries post).
+Proof. intros e. rewrite kids_entries_app, kids_entries_cons, !in_app_iff. tauto. Qed.
+
+Lemma kids_ok_replace pre k k' post :
+  kids_ok (pre ++ k :: post) -> wf k' -> key_ok (nkey k') -> khead k' = khead k ->
+  kids_ok (pre ++ k' :: post).
+Proof.
+  intros (H1 & H2 & H3 & H4) Hw Hk Hh.
+  assert (Hm : map khead (pre ++ k :: post) = map khead (pre ++ k' :: post))
+    by (rewrite !map_app; simpl; now rewrite Hh).
+  split; [|split; [|split]].
+  - apply Forall_app in H1. destruct H1 as [A B]. inversion B; subst. apply Forall_app. split; auto.
+  - apply Forall_app in H2. destruct H2 as [A B]. inversion B; subst. apply Forall_app. split; auto.
+  - now rewrite <- Hm.
+  - eapply tok_last_heads; eauto.
+Qed.
+
+Lemma node_rm key d nm f h kids wild ho c0 r rec :
+  wf (Node key d nm f h kids) -> wild && ho = false ->
+  (forall k, In k kids -> khead k = c0 -> rmk_ok k wild ho (c0 :: r) (rm_kid rec wild ho k (c0 :: r))) ->
+  let n := Node key d nm f h kids in
+  match rm_go rec wild ho c0 (c0 :: r) kids with
+  | None | Some (RmNone, _) => forall e0, In e0 (paths n) -> keepP wild ho (c0 :: r) (fst e0)
+  | Some (RmKeep k', rb) =>
+    wf (Node key d nm f h (rb k')) /\ kept wild ho (c0 :: r) (paths (Node key d nm f h (rb k'))) (paths n)
+  | Some (RmPrune k', _) =>
+    let n0 := Node key d nm f h (match nkey k' with c :: _ => del_head c kids | [] => kids end) in
+    wf n0 /\ kept wild ho (c0 :: r) (paths n0) (paths n)
+  end.
+Proof.
+  intros Hw Hwh Hkid n. pose proof (wf_inv _ _ _ _ _ _ Hw) as (W1 & W2 & W3 & W4).
+  pose proof (rm_go_spec rec wild ho c0 (c0 :: r) kids W2) as Hgo.
+  assert (Hown : forall e0, In e0 (match d with Some x => [([], (x, nm))] | None => [] end) ->
+                            keepP wild ho (c0 :: r) (fst e0)).
+  { intros e0 Hin. destruct d; [|destruct Hin]. destruct Hin as [<-|[]]. apply own_kept. }
+  assert (Hothers : forall ks, (forall x, In x ks -> In x kids /\ khead x <> c0) ->
+                               forall e0, In e0 (kids_entries ks) -> keepP wild ho (c0 :: r) (fst e0)).
+  { intros ks Hks [p x0] Hin. apply in_kids_entries in Hin. destruct Hin as (x & Hx & Hin).
+    destruct (Hks x Hx) as (Hxk & Hxh). rewrite Forall_forall in W2.
+    eapply other_kid_kept; eauto. }
+  destruct (rm_go rec wild ho c0 (c0 :: r) kids) as [[res rb]|].
+  - destruct Hgo as (pre & k & post & Hsplit & Hpre & Hkh & -> & Hrb).
+    assert (Hkin : In k kids) by (rewrite Hsplit; apply in_or_app; right; now left).
+    specialize (Hkid k Hkin Hkh).
+    assert (Hpost : forall x, In x post -> khead x <> c0).
+    { intros x Hx E. rewrite Hsplit, map_app in W3. simpl in W3. apply NoDup_remove_2 in W3.
+      apply W3. apply in_or_app. right. rewrite Hkh, <- E. now apply in_map. }
+    assert (Hpre_k : forall e0, In e0 (kids_entries pre) -> keepP wild ho (c0 :: r) (fst e0)).
+    { apply Hothers. intros x Hx. split; [rewrite Hsplit; apply in_or_app; now left | now apply Hpre]. }
+    assert (Hpost_k : forall e0, In e0 (kids_entries post) -> keepP wild ho (c0 :: r) (fst e0)).
+    { apply Hothers. intros x Hx. split; [rewrite Hsplit; apply in_or_app; right; now right | now apply Hpost]. }
+    assert (Hk_entries : forall e, In e (kid_entries k) <-> exists e0, In e0 (paths k) /\ e = C01_get.pre (key_pcs k) e0).
+    { intros e. unfold kid_entries. rewrite in_map_iff. split; intros (e0 & A & B); exists e0; auto. }
+    destruct (rm_kid rec wild ho k (c0 :: r)) as [|k'|k']; simpl in Hkid.
+    + (* nothing below was touched *)
+      intros e0 Hin. unfold n in Hin. rewrite paths_node in Hin. apply in_app_or in Hin.
+      destruct Hin as [Hin|Hin]; [now apply Hown|]. rewrite Hsplit in Hin. apply kids_entries_split in Hin.
+      destruct Hin as [Hin|[Hin|Hin]]; [now apply Hpre_k | | now apply Hpost_k].
+      apply Hk_entries in Hin. destruct Hin as (e1 & A & ->). simpl. now apply Hkid.
+    + destruct Hkid as (A & B & C & D). rewrite Hrb. split.
+      * destruct (kids_ok_replace pre k k' post) as (K1 & K2 & K3 & K4); auto.
+        { rewrite <- Hsplit. repeat split; auto. }
+        now constructor.
+      * intros e. unfold n. rewrite !paths_node, !in_app_iff, Hsplit.
+        rewrite (kids_entries_split pre k' post e), (kids_entries_split pre k post e). rewrite (D e). split.
+        -- intros [H|[H|[H|H]]].
+           ++ split; [now left | now apply Hown].
+           ++ split; [right; now left | now apply Hpre_k].
+           ++ destruct H as (e0 & H1 & H2 & ->). split; [|exact H2]. right. right. left.
+              apply Hk_entries. eauto.
+           ++ split; [right; right; now right | now apply Hpost_k].
+        -- intros ([H|[H|[H|H]]] & Hkeep); auto.
+           right. right. left. apply Hk_entries in H. destruct H as (e0 & H1 & ->). eauto.
+    + destruct Hkid as (A & B & C & D & E).
+      assert (Hhd : match nkey k' with c :: _ => del_head c kids | [] => kids end = del_head (khead k) kids).
+      { unfold khead in C. destruct (nkey k') as [|c s]; [contradiction|]. simpl in C. now rewrite C. }
+      rewrite Hhd.
+      assert (Hdel : forall x, In x (del_head (khead k) kids) <-> In x kids /\ x <> k)
+        by (apply del_head_spec; auto).
+      split.
+      * destruct (wf_kids_del (khead k) kids) as (K1 & K2 & K3 & K4); [repeat split; auto|]. now constructor.
+      * intros e. unfold n. rewrite !paths_node, !in_app_iff. split.
+        -- intros [H|H]; [split; [now left | now apply Hown]|].
+           destruct e as [p x0]. apply in_kids_entries in H. destruct H as (x & Hx & H). apply Hdel in Hx.
+           destruct Hx as (Hxk & Hne). split; [right; apply in_kids_entries; eauto|].
+           simpl. rewrite Forall_forall in W2. eapply other_kid_kept; eauto.
+           intros Eh. apply Hne. rewrite Hsplit in Hxk. apply in_app_or in Hxk.
+           destruct Hxk as [Hxk|[Hxk|Hxk]]; [exfalso; now apply (Hpre x) | now symmetry | exfalso; now apply (Hpost x)].
+        -- intros ([H|H] & Hkeep); [now left|]. right. destruct e as [p x0]. apply in_kids_entries in H.
+           destruct H as (x & Hx & H). apply in_kids_entries. exists x. split; [|exact H]. apply Hdel.
+           split; [exact Hx|]. intros ->. apply Hk_entries in H. destruct H as (e0 & H1 & H2).
+           apply (E e0 H1). injection H2 as -> _. exact Hkeep.
+  - intros e0 Hin. unfold n in Hin. rewrite paths_node in Hin. apply in_app_or in Hin.
+    destruct Hin as [Hin|Hin]; [now apply Hown|]. revert Hin. apply Hothers. intros x Hx. split; auto.
+Qed.
+
+Lemma keepP_nil_iff wild ho p : keepP wild ho [] p <-> (ho = true \/ (wild = false /\ p <> [])).
+Proof.
+  unfold keepP. destruct wild; simpl.
+  - split; intros [H|H]; auto; [discriminate | destruct H; discriminate].
+  - split; intros [H|H]; auto; right.
+    + split; [reflexivity|]. intros ->. now apply H.
+    + destruct H as [_ H]. intros E. apply H. destruct p; [reflexivity | discriminate].
+Qed.
+
+(* a node seen from its parent *)
+Lemma rm_at_kid_ok : forall k, wf k -> key_ok (nkey k) -> forall wild ho, wild && ho = false ->
+  forall route, rmn_ok k wild ho route (rm_at false wild ho k route).
+Proof.
+  induction k as [key d nm f h kids IH] using node_ind'. intros Hw Hk wild ho Hwh route.
+  pose proof (wf_inv _ _ _ _ _ _ Hw) as (W1 & W2 & W3 & W4).
+  destruct route as [|c0 r].
+  - (* the target *)
+    cbn [rm_at]. destruct (rm_target_spec wild ho _ Hw Hwh) as (n' & Hr & A & B & C & D).
+    assert (Hkp : key_pcs n' = key_pcs (Node key d nm f h kids)) by (now apply kid_entries_same_key).
+    assert (D' : forall e, In e (paths n') <-> In e (paths (Node key d nm f h kids)) /\ keepP wild ho [] (fst e)).
+    { intros e. rewrite D, keepP_nil_iff. tauto. }
+    destruct Hr as [[-> Hp]|[-> Hp]]; simpl.
+    + split; [exact A|]. split; [now rewrite B|]. split; [unfold khead; now rewrite B|].
+      intros e. unfold kid_entries. rewrite Hkp, in_map_iff. split.
+      * intros (e0 & <- & H). apply D' in H. destruct H. eauto.
+      * intros (e0 & H1 & H2 & ->). exists e0. split; [reflexivity|]. apply D'. auto.
+    + split; [exact A|]. split; [rewrite B; apply Hk|]. split; [unfold khead; now rewrite B|].
+      split; [exact Hp|]. intros e0 Hin Hkeep.
+      assert (In e0 (paths n')) by (apply D'; auto). rewrite (prunable_paths _ Hp) in H. destruct H.
+  - cbn [rm_at].
+    assert (Hkid : forall k, In k kids -> khead k = c0 ->
+                     rmk_ok k wild ho (c0 :: r) (rm_kid (fun k r => rm_at false wild ho k r) wild ho k (c0 :: r))).
+    { intros k Hkin Hh. rewrite Forall_forall in IH, W1, W2. apply rm_kid_ok; auto;
+      intros route'; apply IH; auto. }
+    pose proof (node_rm key d nm f h kids wild ho c0 r _ Hw Hwh Hkid) as Hn. cbv zeta in Hn.
+    destruct (rm_go _ wild ho c0 (c0 :: r) kids) as [[[|k'|k'] rb]|]; cbv beta iota zeta.
+    + exact Hn.
+    + destruct Hn as (A & B). cbn [rmn_ok]. split; [exact A|]. split; [exact Hk|]. split; [reflexivity|].
+      intros e. unfold kid_entries. rewrite in_map_iff.
+      assert (Hkp : key_pcs (Node key d nm f h (rb k')) = key_pcs (Node key d nm f h kids)) by reflexivity.
+      rewrite Hkp. split.
+      * intros (e0 & <- & H). apply B in H. destruct H. eauto.
+      * intros (e0 & H1 & H2 & ->). exists e0. split; [reflexivity|]. apply B. auto.
+    + destruct Hn as (A & B).
+      set (n0 := Node key d nm f h (match nkey k' with c :: _ => del_head c kids | [] => kids end)) in *.
+      destruct (try_merge_spec n0 A Hk) as (M1 & M2 & M3 & M4).
+      assert (Hn0 : forall e, In e (kid_entries n0) <->
+                exists e0, In e0 (paths (Node key d nm f h kids)) /\ keepP wild ho (c0 :: r) (fst e0) /\
+                           e = C01_get.pre (key_pcs (Node key d nm f h kids)) e0).
+      { intros e. unfold kid_entries. rewrite in_map_iff.
+        assert (Hkp : key_pcs n0 = key_pcs (Node key d nm f h kids)) by reflexivity. rewrite Hkp. split.
+        - intros (e0 & <- & H). apply B in H. destruct H. eauto.
+        - intros (e0 & H1 & H2 & ->). exists e0. split; [reflexivity|]. apply B. auto. }
+      destruct (prunable (try_merge false n0)) eqn:Ep; cbn [rmn_ok].
+      * split; [exact M1|]. split; [apply M2|]. split; [exact M3|]. split; [exact Ep|].
+        intros e0 Hin Hkeep.
+        assert (Hin' : In (C01_get.pre (key_pcs (Node key d nm f h kids)) e0) (kid_entries n0)) by (apply Hn0; eauto).
+        rewrite <- M4 in Hin'. unfold kid_entries in Hin'. rewrite (prunable_paths _ Ep) in Hin'. destruct Hin'.
+      * split; [exact M1|]. split; [exact M2|]. split; [exact M3|]. intros e. rewrite M4. apply Hn0.
+    + exact Hn.
+Qed.
+
+(* RadiDict.remove on the whole tree *)
+Lemma rm_root_ok : forall root wild ho route, wf root -> wild && ho = false ->
+  match rm_at true wild ho root route with
+  | RmNone => forall e0, In e0 (paths root) -> keepP wild ho route (fst e0)
+  | RmKeep r' | RmPrune r' => wf r' /\ kept wild ho route (paths r') (paths root)
+  end.
+Proof.
+  intros [key d nm f h kids] wild ho route Hw Hwh.
+  pose proof (wf_inv _ _ _ _ _ _ Hw) as (W1 & W2 & W3 & W4).
+  destruct route as [|c0 r].
+  - cbn [rm_at]. destruct (rm_target_spec wild ho _ Hw Hwh) as (n' & Hr & A & B & C & D).
+    assert (D' : kept wild ho [] (paths n') (paths (Node key d nm f h kids))).
+    { intros e. rewrite D, keepP_nil_iff. tauto. }
+    destruct Hr as [[-> Hp]|[-> Hp]]; auto.
+  - cbn [rm_at].
+    assert (Hkid : forall k, In k kids -> khead k = c0 ->
+                     rmk_ok k wild ho (c0 :: r) (rm_kid (fun k r => rm_at false wild ho k r) wild ho k (c0 :: r))).
+    { intros k Hkin Hh. rewrite Forall_forall in W1, W2. apply rm_kid_ok; auto;
+      intros route'; apply rm_at_kid_ok; auto. }
+    pose proof (node_rm key d nm f h kids wild ho c0 r _ Hw Hwh Hkid) as Hn. cbv zeta in Hn.
+    destruct (rm_go _ wild ho c0 (c0 :: r) kids) as [[[|k'|k'] rb]|]; cbv beta iota zeta; auto.
+    assert (Hm : forall p, try_merge true p = p).
+    { intros [k0 d0 n0 f0 h0 [|c [|c2 ks]]]; reflexivity. }
+    rewrite Hm. destruct (prunable _); exact Hn.
+Qed.
+
+Theorem remove_lemma : forall root pattern ho exact root',
+  wf root -> rd_remove root pattern ho exact = Some root' ->
+  wf root' /\
+  forall e, In e (paths root') <->
+            In e (paths root) /\
+            keepP (ends_star pattern && negb exact) ho
+                  (if ends_star pattern && negb exact then removelast pattern else pattern) (fst e).
+Proof.
+  intros root pattern ho exact root' Hw. unfold rd_remove.
+  set (wild := ends_star pattern && negb exact). set (p := if wild then removelast pattern else pattern).
+  destruct (wild && ho) eqn:Ewh; [discriminate|].
+  pose proof (rm_root_ok root wild ho p Hw Ewh) as H.
+  destruct (rm_at true wild ho root p) as [|r'|r']; intros [= <-].
+  - split; [exact Hw|]. intros e. split; [intros Hin; split; auto | tauto].
+  - exact H.
+  - exact H.
+Qed.
+
+(* ------------------------------------------------------------------ *)
+(* every operation keeps tree, heap and routes index in step            *)
+(* ------------------------------------------------------------------ *)
+
+Lemma al_get_filter {B} (l : list (str * B)) (keep : str -> bool) k :
+  al_get (filter (fun kv => keep (fst kv)) l) k = if keep k then al_get l k else None.
+Proof.
+  induction l as [|[k0 v0] l IH]; simpl; [now destruct (keep k)|].
+  destruct (keep k0) eqn:E0; simpl.
+  - destruct (str_eqb_spec k0 k) as [->|Hn]; [now rewrite E0 | exact IH].
+  - destruct (str_eqb_spec k0 k) as [->|Hn]; [now rewrite IH, E0 | exact IH].
+Qed.
+
+Lemma nodup_filter_keys {B} (l : list (str * B)) (keep : str * B -> bool) :
+  NoDup (map fst l) -> NoDup (map fst (filter keep l)).
+Proof.
+  induction l as [|[k0 v0] l IH]; simpl; intros H; [constructor|]. inversion H as [|? ? Hn Hd]; subst.
+  destruct (keep (k0, v0)); simpl; [|auto]. constructor; [|auto].
+  intros Hin. apply Hn. apply in_map_iff in Hin. destruct Hin as (x & Hx & Hin). apply filter_In in Hin.
+  apply in_map_iff. exists x. tauto.
+Qed.
+
+(* removing index entries by a predicate on the pattern, together with the same
+   removal in the tree *)
+Lemma Inv_remove_keys R t' (gone : str -> bool) nmd :
+  Inv R -> wf t' ->
+  (forall e, In e (paths t') <-> In e (paths (tree R)) /\ gone (rstr (fst e)) = false) ->
+  Inv (mkRouter t' (heap R) (filter (fun kv => negb (gone (fst kv))) (routes R)) nmd (hooks_idx R)).
+Proof.
+  intros [I1 I2 I3 I4] Hw Hp. constructor; simpl.
+  - exact Hw.
+  - intros e. rewrite Hp, I2. split.
+    + intros ((p & d & rt & A & B & C) & Hg). exists p, d, rt. split; [|auto].
+      rewrite (al_get_filter (routes R) (fun k => negb (gone k)) p). subst e. unfold entry_of in Hg. simpl in Hg.
+      rewrite rstr_fpat in Hg. now rewrite Hg.
+    + intros (p & d & rt & A & B & C). rewrite (al_get_filter (routes R) (fun k => negb (gone k)) p) in A.
+      destruct (gone p) eqn:Eg; [discriminate|]. simpl in A. split; [eauto 6|].
+      subst e. unfold entry_of. simpl. now rewrite rstr_fpat.
+  - intros p d A. rewrite (al_get_filter (routes R) (fun k => negb (gone k)) p) in A.
+    destruct (negb (gone p)); [auto | discriminate].
+  - now apply nodup_filter_keys.
+Qed.
+
+Lemma al_del_filter {B} (l : list (str * B)) k :
+  al_del l k = filter (fun kv => negb ((fun p => str_eqb p k) (fst kv))) l.
+Proof. reflexivity. Qed.
+
+Lemma Inv_named R nmd : Inv R -> Inv (mkRouter (tree R) (heap R) (routes R) nmd (hooks_idx R)).
+Proof. intros H. apply (Inv_same_core R); auto. Qed.
+
+Lemma keepP_exact pattern p : keepP false false pattern p <-> str_eqb (rstr p) pattern = false.
+Proof.
+  unfold keepP. split.
+  - intros [H|H]; [discriminate|]. destruct (str_eqb_spec (rstr p) pattern); [contradiction | reflexivity].
+  - intros H. right. intros E. rewrite E, str_eqb_refl in H. discriminate.
+Qed.
+
+Lemma Inv_rt_remove_pattern R pattern : Inv R -> Inv (fst (rt_remove_pattern R pattern)).
+Proof.
+  intros HI. unfold rt_remove_pattern.
+  destruct (rd_remove (tree R) pattern false false) as [t'|] eqn:Er; [|exact HI].
+  destruct (remove_lemma _ _ _ _ _ (inv_wf R HI) Er) as (Hw & Hp). rewrite andb_true_r in Hp.
+  destruct (ends_star pattern) eqn:Es; simpl.
+  - apply (Inv_remove_keys R t' (fun p => prefixb (removelast pattern) p)); auto.
+    intros e. rewrite Hp. unfold keepP. split; intros (A & B); split; auto.
+    destruct B as [B|B]; [discriminate | exact B].
+  - rewrite al_del_filter. apply (Inv_remove_keys R t' (fun p => str_eqb p pattern)); auto.
+    intros e. rewrite Hp, keepP_exact. tauto.
+Qed.
+
+Lemma Inv_rt_remove_name R nme : Inv R -> Inv (fst (rt_remove_name R nme)).
+Proof.
+  intros HI. unfold rt_remove_name. destruct (al_get (named R) nme) as [d|]; [|exact HI].
+  destruct (pattern_of_rid R d) as [pattern|]; [|exact HI].
+  destruct (rd_remove (tree R) pattern false true) as [t'|] eqn:Er; [|now apply Inv_named].
+  destruct (remove_lemma _ _ _ _ _ (inv_wf R HI) Er) as (Hw & Hp).
+  rewrite andb_false_r in Hp.
+  assert (Hp' : forall e, In e (paths t') <-> In e (paths (tree R)) /\ str_eqb (rstr (fst e)) pattern = false).
+  { intros e. rewrite Hp, keepP_exact. tauto. }
+  destruct (al_get (routes R) pattern) as [d0|] eqn:Eg; simpl.
+  - rewrite al_del_filter. apply (Inv_remove_keys R t' (fun p => str_eqb p pattern)); auto.
+  - (* the index has no such pattern: nothing was held under it *)
+    destruct HI as [I1 I2 I3 I4]. constructor; simpl; auto.
+    intros e. rewrite Hp', I2. split; [tauto|]. intros (p & d1 & rt & A & B & C). split; [eauto 6|].
+    subst e. unfold entry_of. simpl. rewrite rstr_fpat. destruct (str_eqb_spec p pattern) as [->|]; [congruence | reflexivity].
+Qed.
+
+(* the in-place update of a hook pair changes no route and no key *)
+Lemma upd_hooks_ok hp : forall n route,
+  wf n -> wf (upd_hooks_at n route hp) /\ nkey (upd_hooks_at n route hp) = nkey n /\
+          nflt (upd_hooks_at n route hp) = nflt n /\ paths (upd_hooks_at n route hp) = paths n.
+Proof.
+  induction n as [key d nm f h kids IH] using node_ind'. intros route Hw.
+  pose proof (wf_inv _ _ _ _ _ _ Hw) as (W1 & W2 & W3 & W4).
+  destruct route as [|c0 r]; cbn [upd_hooks_at].
+  - split; [now constructor|]. auto.
+  - assert (G : forall ks, Forall (fun k => forall route, wf k ->
+                    wf (upd_hooks_at k route hp) /\ nkey (upd_hooks_at k route hp) = nkey k /\
+                    nflt (upd_hooks_at k route hp) = nflt k /\ paths (upd_hooks_at k route hp) = paths k) ks ->
+                  Forall wf ks -> Forall (fun k => key_ok (nkey k)) ks ->
+                  let ks' := upd_go (fun k r => upd_hooks_at k r hp) c0 (c0 :: r) ks in
+                  Forall wf ks' /\ Forall (fun k => key_ok (nkey k)) ks' /\ map khead ks' = map khead ks /\
+                  kids_entries ks' = kids_entries ks).
+    { induction ks as [|k ks IHks]; intros HF H1 H2; [simpl; auto|]. cbn [upd_go]. cbv zeta.
+      inversion HF as [|? ? Hk HFs]; subst. inversion H1; subst. inversion H2; subst.
+      destruct (head_is k c0).
+      - destruct (prefixb (nkey k) (c0 :: r)).
+        + destruct (Hk (skipn (length (nkey k)) (c0 :: r))) as (A & B & C & D); auto.
+          split; [now constructor|]. split; [constructor; auto; now rewrite B|].
+          split; [simpl; unfold khead; now rewrite B|].
+          rewrite !kids_entries_cons. f_equal. unfold kid_entries. rewrite D. f_equal.
+          now apply kid_entries_same_key.
+        + repeat split; auto.
+      - destruct (IHks HFs) as (A & B & C & D); auto. split; [now constructor|]. split; [now constructor|].
+        split; [simpl; now rewrite C|]. rewrite !kids_entries_cons. now rewrite D. }
+    destruct (G kids IH W1 W2) as (A & B & C & D). split.
+    + constructor; auto; [now rewrite C | eapply tok_last_heads; eauto].
+    + split; [reflexivity|]. split; [reflexivity|]. rewrite !paths_node. now rewrite D.
+Qed.
+
+Lemma Inv_tree_same_paths R t' nmd hk :
+  Inv R -> wf t' -> (forall e, In e (paths t') <-> In e (paths (tree R))) ->
+  Inv (mkRouter t' (heap R) (routes R) nmd hk).
+Proof.
+  intros [I1 I2 I3 I4] Hw Hp. constructor; simpl; auto. intros e. rewrite Hp. apply I2.
+Qed.
+
+Lemma Inv_rt_add_hook R pattern nm flts h partial :
+  Inv R -> ntok pattern = length flts -> Inv (fst (rt_add_hook R pattern nm flts h partial)).
+Proof.
+  intros HI Hn. unfold rt_add_hook. destruct (rt_match_hooks R pattern) as [hp|].
+  - simpl. destruct (upd_hooks_ok (install hp h partial) (tree R) pattern (inv_wf R HI)) as (A & _ & _ & D).
+    apply Inv_tree_same_paths; auto. intros e. now rewrite D.
+  - destruct (set_at (tree R) pattern flts 0 (IHooks (install (None, None) h partial)) nm) as [t'|e] eqn:Es; [|exact HI].
+    simpl. destruct (hook_install_lemma (tree R) pattern flts _ nm t' (inv_wf R HI)) as (A & B); [lia | exact Es|].
+    now apply Inv_tree_same_paths.
+Qed.
+
+Lemma Inv_rt_remove_hook R pattern : Inv R -> Inv (fst (rt_remove_hook R pattern)).
+Proof.
+  intros HI. unfold rt_remove_hook. destruct (rd_remove (tree R) pattern true false) as [t'|] eqn:Er; [|exact HI].
+  destruct (remove_lemma _ _ _ _ _ (inv_wf R HI) Er) as (Hw & Hp). simpl.
+  apply Inv_tree_same_paths; auto. intros e. rewrite Hp. unfold keepP. tauto.
+Qed.
+
+(* histories: every operation of the router; the only guard is the one the
+   code itself needs (one filter per wildcard in a rule) *)
+Definition hist_cmd (c : cmd) : Prop :=
+  match c with
+  | CAdd _ p _ fl _ _ _ _ => ntok p = length fl
+  | CAddHook p _ fl _ _ => ntok p = length fl
+  | _ => True
+  end.
+
+Lemma Inv_hist_step R c : Inv R -> hist_cmd c -> Inv (fst (run_cmd R c)).
+Proof.
+  intros HI Hc. destruct c; simpl in *; try exact HI.
+  - pose proof (Inv_rt_add R rule pattern nm flts methods h name overwrite HI Hc) as G.
+    now destruct (rt_add R rule pattern nm flts methods h name overwrite).
+  - pose proof (Inv_rt_remove_pattern R pattern HI) as G. now destruct (rt_remove_pattern R pattern).
+  - pose proof (Inv_rt_remove_name R name HI) as G. now destruct (rt_remove_name R name).
+  - pose proof (Inv_rt_add_hook R pattern nm flts h partial HI Hc) as G.
+    now destruct (rt_add_hook R pattern nm flts h partial).
+  - pose proof (Inv_rt_remove_hook R pattern HI) as G. now destruct (rt_remove_hook R pattern).
+  - now apply Inv_rt_remove_method.
+Qed.
+
+Lemma Inv_hist cs : forall R, Inv R -> Forall hist_cmd cs -> Inv (exec_cmds R cs).
+Proof.
+  unfold exec_cmds. induction cs as [|c cs IH]; intros R HI Hcs; simpl; [exact HI|].
+  inversion Hcs; subst. apply IH; auto. now apply Inv_hist_step.
+Qed.
+
+(* after ANY history the router resolves every path as the rule-by-rule spec
+   does on the surviving routes index *)
+Lemma history_route_eq_spec_lemma : forall filt (cs : list cmd) (path : str) (cds : list str),
+  Forall hist_cmd cs ->
+  let R := exec_cmds router0 cs in
+  match spec filt (rules_of R) (strip_sep path) with
+  | None => exists vs hs i, resolve filt R path cds = R404 vs hs i
+  | Some (q, d, vs) =>
+    exists rt hs,
+      nth_error (heap R) d = Some rt /\ In (r_pattern rt, d) (routes R) /\
+      q = pat_of (r_pattern rt) (r_filters rt) /\
+      resolve filt R path cds =
+      match dispatch_on (r_methods rt) cds with
+      | DCall m (h, mn) => ROk d m h (make_params (match mn with [] => r_names rt | _ :: _ => mn end) vs) hs
+      | D405 a => R405 a
+      end
+  end.
+Proof.
+  intros filt cs path cds Hcs R. apply resolve_eq_spec_lemma. apply Inv_hist; [apply Inv0 | exact Hcs].
+Qed.
+
+(* what each removal does to the index, in its plain reading *)
+Lemma remove_pattern_index_lemma : forall R pattern p,
+  al_get (routes (fst (rt_remove_pattern R pattern))) p =
+  match rd_remove (tree R) pattern false false with
+  | None => al_get (routes R) p
+  | Some _ =>
+    if ends_star pattern then (if prefixb (removelast pattern) p then None else al_get (routes R) p)
+    else if str_eqb p pattern then None else al_get (routes R) p
+  end.
+Proof.
+  intros R pattern p. unfold rt_remove_pattern. destruct (rd_remove (tree R) pattern false false); [|reflexivity].
+  destruct (ends_star pattern); simpl.
+  - rewrite (al_get_filter (routes R) (fun k => negb (prefixb (removelast pattern) k)) p).
+    now destruct (prefixb (removelast pattern) p).
+  - rewrite al_del_filter, (al_get_filter (routes R) (fun k => negb (str_eqb k pattern)) p).
+    now destruct (str_eqb p pattern).
+Qed.
